@@ -102,6 +102,7 @@ void monitor_region_begin(Team*) { monitor_epoch_clear(); }
 
 void monitor_free_range(uintptr_t addr, size_t n)
 {
+    RtGuard rtg;
     if (!G.active || !g_tab || n == 0)
         return;
     uintptr_t w0 = addr >> 3, w1 = (addr + n - 1) >> 3;
@@ -247,8 +248,9 @@ static inline void preempt_maybe(Thread* t)
 
 static inline void on_access(void* p, int size, bool write, void* pc)
 {
-    if (!G.active)
+    if (!G.active || tl_rt)
         return;
+    RtGuard rtg;
     Thread* t = tl_me;
     if (!t || !t->team || t->inline_depth > 0)
         return;
@@ -278,8 +280,9 @@ static inline void on_access(void* p, int size, bool write, void* pc)
 
 static inline void on_range(void* p, size_t n, bool write, void* pc)
 {
-    if (!G.active || n == 0)
+    if (!G.active || n == 0 || tl_rt)
         return;
+    RtGuard rtg;
     Thread* t = tl_me;
     if (!t || !t->team || t->inline_depth > 0)
         return;
